@@ -1,7 +1,7 @@
 (* C04 - A failing callback leaves a consistent, usable machine.  Statements only. *)
 From Coq Require Import List Arith Bool.
 Import ListNotations.
-From PySM Require Import Impl.Engine Proofs.EngineFrame Proofs.EngineProofs Proofs.EngineRefine.
+From PySM Require Import Impl.Engine Proofs.EngineFrame Proofs.EngineProofs Proofs.EngineRefine Proofs.NonRtcProofs.
 
 (* a failure in validators / conditions / before / exit / on: the exception escapes _activate and the
    stored state is still the one before the transition (the source) *)
@@ -58,6 +58,18 @@ Theorem C04_activate_again_ends_idle :
     match run_loop beh rm f c with Ok c' _ | Exn c' _ => idle c' | Fuel => True end.
 Proof. exact run_loop_idle. Qed.
 Print Assumptions C04_activate_again_ends_idle.
+
+(* rtc=False: on an idle machine every send - returning or raising, whatever its callbacks send in
+   turn, to any nesting - ends with an empty queue and the lock untouched (it is never taken in this
+   mode): nothing is left to run later and the next event is processed normally *)
+Theorem C04_nonrtc_send_ends_idle :
+  forall beh rm f td c, queue c = [] ->
+    match send_nonrtc beh rm f td c with
+    | Ok c' _ | Exn c' _ => queue c' = [] /\ locked c' = locked c
+    | Fuel => True
+    end.
+Proof. exact nonrtc_send_ends_idle. Qed.
+Print Assumptions C04_nonrtc_send_ends_idle.
 
 (* non-vacuity: an `on` callback sends event 0 again and then an `after` callback raises: the
    exception escapes, the state is the target, the queued event is gone and the lock is free *)
